@@ -1,3 +1,4 @@
 pub mod parser;
 pub mod positions;
 pub mod recovery;
+pub mod ide_sweep;
